@@ -155,10 +155,11 @@ fn res<T: std::fmt::Debug>(r: gimli::Result<T>) -> String {
 
 /// Apply one operation to handle `hi` of a pool; returns the canonical outcome and
 /// possibly a new handle.
-fn apply<R: Reader<Offset = usize>>(pool: &mut Pool<R>, hi: usize, other: usize, op: &[i64], emptied: &[bool]) -> (String, Option<R>) {
+fn apply<R: Reader<Offset = usize>>(pool: &mut Pool<R>, hi: usize, other: usize, op: &[i64], emptied: &[bool], other_contains: bool) -> (String, Option<R>) {
     let a = op[2] as u64;
     let b = op[3] as u64;
     let other_id = pool.h.get(other).and_then(|x| x.as_ref()).map(|x| x.offset_id());
+    let other_r = if other_contains && other != hi { pool.h.get(other).and_then(|x| x.clone()) } else { None };
     let root = pool.root.clone();
     let r = match pool.h[hi].as_mut() {
         Some(r) => r,
@@ -242,7 +243,12 @@ fn apply<R: Reader<Offset = usize>>(pool: &mut Pool<R>, hi: usize, other: usize,
             if emptied[hi] {
                 "skip(emptied)".into()
             } else {
-                format!("offset_from(root)={}", r.offset_from(&root))
+                // relative to the whole section, and relative to another live view that the
+                // model says contains this one (the documented precondition)
+                match &other_r {
+                    Some(o) => format!("offset_from(root)={} offset_from(other)={}", r.offset_from(&root), r.offset_from(o)),
+                    None => format!("offset_from(root)={}", r.offset_from(&root)),
+                }
             }
         }
         35 => {
@@ -303,12 +309,16 @@ fn run_lockstep(case: &Case, ctx: &mut Ctx<'_>) {
             }
             let other = (op[3] as usize) % nh;
             ctx.enter("reader.op");
-            let (o_m, n_m) = apply(&mut p_m, hi, other, op, &emptied);
-            let (o_s, n_s) = apply(&mut p_s, hi, other, op, &emptied);
-            let (o_rc, n_rc) = apply(&mut p_rc, hi, other, op, &emptied);
-            let (o_arc, n_arc) = apply(&mut p_arc, hi, other, op, &emptied);
-            let (o_cb, n_cb) = apply(&mut p_cb, hi, other, op, &emptied);
-            let (o_rl, n_rl) = apply(&mut p_rl, hi, other, op, &emptied);
+            let oc = match (&p_m.h[hi], p_m.h.get(other).and_then(|x| x.as_ref())) {
+                (Some(me), Some(o)) => !emptied[hi] && !emptied[other] && me.start >= o.start && me.start + me.len <= o.start + o.len,
+                _ => false,
+            };
+            let (o_m, n_m) = apply(&mut p_m, hi, other, op, &emptied, oc);
+            let (o_s, n_s) = apply(&mut p_s, hi, other, op, &emptied, oc);
+            let (o_rc, n_rc) = apply(&mut p_rc, hi, other, op, &emptied, oc);
+            let (o_arc, n_arc) = apply(&mut p_arc, hi, other, op, &emptied, oc);
+            let (o_cb, n_cb) = apply(&mut p_cb, hi, other, op, &emptied, oc);
+            let (o_rl, n_rl) = apply(&mut p_rl, hi, other, op, &emptied, oc);
             ev!(ctx, "step {} op={} h={} -> {}", si, op[0], hi, o_m);
             for (name, o) in [("EndianSlice", &o_s), ("EndianRcSlice", &o_rc), ("EndianArcSlice", &o_arc), ("EndianReader<CountingBuf>", &o_cb), ("RelocateReader", &o_rl)] {
                 if *o != o_m {
